@@ -187,6 +187,8 @@ def run(ctx):
             ctx.stats.violation({'kind': 'schedule', 'config': 'target', 'W': W, 'schedule': []}, f'sequential result with W={W} differs from W=1', {'kind': 'pool_size_dependent'})
     for st in pmap(_sched_job, jobs):
         ctx.stats.merge(st)
+    ctx.stats.sample({'kind': 'schedule', 'config': 'target', 'W': 3, 'schedule': [0, 1, 2, 0, 1, 1, 2, 0]})
+    ctx.stats.sample({'kind': 'cli', 'config': 'focus', 'seed': 1, 'threads': 2, 'ref_seed': 0, 'ref_threads': 1})
     ctx.extra['virtual_pool_plan'] = [{'config': c, 'W': w, 'chunks': k, 'schedules': n, 'mode': m} for c, w, k, n, m in plan]
     for cfg in ('target', 'pairwise', 'noise'):
         if len(ctx.stats.sets['outcomes_' + cfg]) > 1 and not ctx.stats.violations:
